@@ -25,6 +25,7 @@ Tie: suite `e2e` drives the REAL `RealDriver` (mio/epoll, `DevInputReader`, `Tab
 import TmVerif.Proofs.EndToEnd
 import TmVerif.Proofs.EndToEndAny
 import TmVerif.Proofs.EndToEndTimed
+import TmVerif.Proofs.EndToEndNoSpecial
 import TmVerif.Props.C10Closed
 import TmVerif.Props.C18
 
@@ -323,3 +324,37 @@ end TmVerif
 
 #print axioms TmVerif.itemsOf_tlogOf
 #print axioms TmVerif.E2E_closed_all
+
+/-! ### Layouts without Special repeats: the step bytes ARE all bytes (appended) -/
+
+namespace TmVerif
+
+/-- E2E, keyboard only, ALL bytes: for a layout without Special-repeat mappings the loop never writes a chord
+(`allSends_eq_callsSends_noSpecial`: for EVERY script), so the bytes of ALL its writes are `wireOut` of the
+concatenated keyboard bytes, whatever the chunking, the timing, spurious time-outs and interruptions. -/
+theorem E2E_kbd_all (L : Layout) (hL : NoSpecial L) (x0 : Machine) (h0 : Machine.init L = some x0)
+    (chunks : List Chunk) (hal : Aligned chunks) (hk : KbdOnly chunks) (ms : List Move) (x : Machine) (e : Env)
+    (hrun : crun L (x0, Env.init (chunks.map Chunk.arrival)) ms = some (x, e)) (hrest : AtRest (x, e)) :
+    (allSends (runScript L x0 (answers ms)).1).flatMap encodeBatch = wireOut L [Chunk.kbd (kbdBytes chunks)] := by
+  rw [allSends_eq_callsSends_noSpecial L hL x0 h0]
+  exact E2E_kbd L x0 h0 chunks hal hk ms x e hrun hrest
+
+/-- E2E, both devices, ALL bytes, layouts without Special repeats -/
+theorem E2E_closed_noSpecial (L : Layout) (hL : NoSpecial L) (x0 : Machine) (h0 : Machine.init L = some x0)
+    (chunks : List Chunk) (hal : Aligned chunks) (ms : List Move) (x : Machine) (e : Env)
+    (hrun : crun L (x0, Env.init (chunks.map Chunk.arrival)) ms = some (x, e)) (hrest : AtRest (x, e)) :
+    (allSends (runScript L x0 (answers ms)).1).flatMap encodeBatch =
+      wireOfLog L State.init false (runLog L x0 [] (answers ms)) := by
+  rw [allSends_eq_callsSends_noSpecial L hL x0 h0]
+  exact (E2E_closed L x0 h0 chunks hal ms x e hrun hrest).2.2
+
+/-- the layout of the examples has no Special repeat -/
+example : NoSpecial c10Layout := by
+  intro m hm ks d i
+  simp [c10Layout] at hm
+  rcases hm with rfl | rfl <;> simp
+
+end TmVerif
+
+#print axioms TmVerif.E2E_kbd_all
+#print axioms TmVerif.E2E_closed_noSpecial
